@@ -596,7 +596,8 @@ func setup(r *mon.Run) {
 		"Message size classes: empty (zero bytes on the wire) and tiny messages at every position (only / first / middle / last) in both directions, crossed with compression " +
 		"(gRPC-web also with mixed per-message flags on a gzip stream). " +
 		"google.api.HttpBody transfers through a second proxied Mux with a 100-byte chunk limit (and the default one): uploads of 1-450 bytes with Content-Length, chunked and h2c framing, " +
-		"downloads over sizes x message sizes; oracle = byte conservation at the back-end / client. " +
+		"downloads over sizes x message sizes; oracle = byte conservation at the back-end / client; media types with a registered codec (octet-stream, protobuf, json), foreign ones and none, on a streaming and a unary HttpBody-bound method; " +
+		"back-ends that fail the upload (after the half-close / before the response) x request media types without a codec x Accept absent / */* / json: the HTTP client gets the back-end's code, message and details. " +
 		"Hostile string values in message fields (trailing backslashes, escaped quotes, braces / brackets in strings, backslash spelled \\u005c) in the first / middle / last message of client-streaming and bidi calls on the JSON fronts. " +
 		"Compression values: absent, gzip, identity announced explicitly (gRPC, gRPC-web). " +
 		"Each script runs twice (direct / through larking); distinct = front x shape x plan family x message count x outcome x half-close-seen x metadata class."
